@@ -5,6 +5,7 @@ package svc
 
 import (
 	"context"
+	"errors"
 	"fmt"
 	"os"
 	"path/filepath"
@@ -61,6 +62,9 @@ type World struct {
 	Errors                                           []string // harness-level problems
 	ConverterBin                                     string
 }
+
+// ErrJobStuck: a released job neither parked at its next gate nor delivered its completion.
+var ErrJobStuck = errors.New("job stuck")
 
 var worlds sync.Map // *manager.Manager -> *World
 
@@ -268,7 +272,7 @@ func (w *World) Step(kind string) error {
 		}
 		if time.Now().After(deadline) {
 			w.mu.Unlock()
-			return fmt.Errorf("job %s#%d did not reach its next point after %s", kind, j.Seq, gate)
+			return fmt.Errorf("%w: job %s#%d did not reach its next point within 60 s after %s", ErrJobStuck, kind, j.Seq, gate)
 		}
 		w.cond.Wait()
 	}
